@@ -1,1 +1,4 @@
 pub mod c01;
+pub mod c31;
+pub mod c32;
+pub mod c33;
